@@ -188,66 +188,9 @@ def corpus_cases():
 
 
 def evaluate(ctx, cases, label):
-    """correspondence + oracle verdicts on executed cases [(eoc, ops, record strings, first oracle failure)]"""
-    from harness import lib_uow as L
+    from harness import lib_uow_check as K
 
-    reqs = ["sess run %d %s" % (1 if eoc else 0, ",".join(L.fmt_op(o) for o in ops) or "-") for eoc, ops, _, _ in cases]
-    model = ctx.driver(reqs) if ctx.driver_ok() else None
-    corr_cases, impl_out, model_out = [], [], []
-    for n, (eoc, ops, strs, f) in enumerate(cases):
-        case = {"eoc": eoc, "ops": [list(o) for o in ops]}
-        ctx.case((eoc, ops), nontrivial=any(s.split("|")[5] != "-" for s in strs if s != "bad-oid"))
-        ctx.count("len=%02d" % min(len(ops), 30))
-        for op in ops:
-            ctx.count("op=" + op[0])
-        for s in strs:
-            r = s.split("|", 1)[0]
-            ctx.count("outcome=" + (r if r.startswith("err:") else "ok"))
-        # ---- model verdict per op: index of first divergence / abstention
-        vouched = len(strs)  # ops [0, vouched) are reproduced by the model
-        diverge_at = None
-        if model is not None:
-            m = model[n].split(";") if model[n] else []
-            for j, s in enumerate(strs):
-                if s == "bad-oid":
-                    vouched = j
-                    break
-                if j >= len(m) or m[j] == "abstain":
-                    vouched = j
-                    ctx.count("model-abstains")
-                    break
-                if m[j].endswith("|nondet"):
-                    vouched = j
-                    ctx.count("model-abstains(set-order)")
-                    break
-                a = L.project(s, "c35")
-                b = L.project(m[j], "c35")
-                corr_cases.append({"eoc": eoc, "ops": case["ops"][: j + 1], "at": j})
-                impl_out.append(a)
-                model_out.append(b)
-                if a != b:
-                    diverge_at = j
-                    vouched = j
-                    break
-        # ---- direct oracle on the prefix the model speaks about (+ the diverging op)
-        upto = vouched + (1 if diverge_at is not None else 0)
-        if f is not None and f["i"] < upto:
-            key = classify(f)
-            if diverge_at is not None and f["i"] >= diverge_at:
-                key += "@behaviour-differs-from-model"
-            elif key not in ENUMERATED:
-                key = "c35-other-deviation-present-in-transcribed-model"
-            ctx.count("oracle:" + key)
-            c = dict(case, ops=case["ops"][: f["i"] + 1])
-            ctx.violation(key, c, f["detail"])
-        elif len(ops) >= 8:
-            ctx.sample({"eoc": eoc, "ops": ",".join(L.fmt_op(o) for o in ops), "last": L.project(strs[-1], "c35")})
-    if model is not None:
-        ctx.correspond("corr/c35:Session-vs-Model.Sess(%s)" % label, corr_cases, impl_out, model_out)
-
-
-def classify(f):
-    return "c35-" + f["check"] + ":" + f["sig"]
+    K.evaluate(ctx, cases, label, "c35", ENUMERATED)
 
 
 # keys of the genuine defects of the unchanged tree (see known_findings.d/C35.json)
@@ -294,24 +237,13 @@ def run(ctx, deep=False):
 
 def search(ctx, broken):
     """an obligation broke and the normal run found no failing input: probe the
-    disagreeing histories (every prefix + closing operations), then a larger budget"""
+    disagreeing histories (late prefixes + closing operations), then a larger budget"""
+    from harness import lib_uow_check as K
     from harness import lib_uow_gen as G
 
-    probes = [[("flush",)], [("commit",)], [("rollback",)], [("close",)], [("expunge_all",)], [("commit",), ("rollback",)],
-              [("get", 1)], [("get", 2)], [("get", 3)], [("flush",), ("rollback",)], [("nbegin",), ("rollback",)]]
-    seen = set()
-    fixed = []
-    for d in ctx.disagreements[:25]:
-        c = d["case"]
-        ops = [tuple(o) for o in c["ops"]]
-        for cut in range(max(1, len(ops) - 2), len(ops) + 1):
-            for p in probes:
-                cand = ops[:cut] + p
-                key = (c["eoc"], tuple(cand))
-                if key not in seen:
-                    seen.add(key)
-                    fixed.append((c["eoc"], cand))
+    fixed = K.probe_cases(ctx)
     sub = type(ctx)(ctx.pid, "thorough", ctx.seed + 1, ctx.level)
+    sub.broken = list(ctx.broken)
     if fixed:
         evaluate(sub, [G.compact(G.run_fixed(e, o)) for e, o in fixed], "search-probes")
     if not [v for v in sub.violations if "@" in v["key"]]:
@@ -321,16 +253,7 @@ def search(ctx, broken):
 
 
 def replay(ctx, obj):
-    from harness import lib_uow as L
-    from harness import lib_uow_gen as G
+    from harness import lib_uow_check as K
     from harness import lib_uow_oracle as O
 
-    c = obj["case"]
-    eoc, ops, recs = G.run_fixed(c["eoc"], c["ops"])
-    f = O.check_case(eoc, ops, recs)
-    print("replay C35 eoc=%s ops=%s" % (eoc, ",".join(L.fmt_op(o) for o in ops)))
-    for op, r in zip(ops, recs):
-        print("   %-14s %s" % (L.fmt_op(op), L.project(L.fmt_record(r), "c35") if r else "bad-oid"))
-    print("oracle:", f["detail"] if f else None)
-    want = obj["key"].split("@")[0]
-    return f is not None and (classify(f) == want or want == "c35-other-deviation-present-in-transcribed-model")
+    return K.replay(ctx, obj, "c35", O.check_case)
